@@ -13,7 +13,7 @@ def seeks_from_start_sum_only(ctx, rule, body, label, allow_ops=(), recv_names=N
     ix = index_of(body)
     n = 0
     for bi, t in body.calls():
-        c = t.get("res") or ""
+        c = ix.callee(t)  # resolved callee, or the declared one for a generic stream parameter (`T: Seek`)
         if c.split("::")[-1] != "seek" or len(t["args"]) != 2:
             continue
         if recv_names is not None and not (recv_names & derive(ix, t["args"][0]).names):
